@@ -159,11 +159,13 @@ func SetInitial(realImpl bool) {
 		U = mkImpl(6000)
 		L["L1"].set(mkImpl(8000))
 		L["L2"].set(mkImpl(9000))
+		L["Big"].set(mkImpl(9500))
 	} else {
 		X, Y, Z, W, V = nil, nil, nil, nil, nil
 		U = nil
 		L["L1"].set(nil)
 		L["L2"].set(nil)
+		L["Big"].set(nil)
 	}
 }
 
@@ -281,7 +283,10 @@ var Methods = map[string][]string{
 
 // RealResult is what the real implementation returns.
 func RealResult(v, m string, a int) int {
-	k := map[string]int{"X": 1000, "Y": 2000, "Z": 3000, "W": 4000, "V": 5000, "X2": 7000, "L1": 8000, "L2": 9000, "U": 6000}[v]
+	k := map[string]int{"X": 1000, "Y": 2000, "Z": 3000, "W": 4000, "V": 5000, "X2": 7000, "L1": 8000, "L2": 9000, "U": 6000, "Big": 9500}[v]
+	if v == "Big" {
+		return a + k + 100 + int(m[1]-'0')*100 + int(m[2]-'0')*10 + int(m[3]-'0')
+	}
 	switch m {
 	case "Sum8":
 		return a + 2 + 3 + 4 + 5 + 6 + 7 + 8 + k + 6
